@@ -191,19 +191,24 @@ fn path(p: &PathExpr, env: &Env, c: Ctx) -> Result<Value, EvalError> {
             };
             // predicates of a filter expression: child axis semantics = document order
             for pr in preds {
+                crate::trace::note_order_use(env.tree, &ns);
                 ns = filter(&ns, pr, env)?;
             }
             ns
         }
     };
     for step in &p.steps {
+        // The QName of the node test is expanded when the step is evaluated,
+        // even if there is no node to test: an unbound prefix is an error of
+        // the step, not of a particular candidate node.
+        let test = ResolvedTest::new(env, &step.test)?;
         let mut next: Vec<usize> = Vec::new();
         for &n in &cur {
             let mut cand = axis_nodes(env.tree, step.axis, n);
             // node test
             let mut kept = Vec::with_capacity(cand.len());
             for x in cand.drain(..) {
-                if node_test(env, step.axis, &step.test, x)? {
+                if test.matches(env.tree, step.axis, x) {
                     kept.push(x);
                 }
             }
@@ -301,6 +306,9 @@ pub fn axis_nodes(t: &XTree, axis: Axis, n: usize) -> Vec<usize> {
             }
         }
         Axis::Following => {
+            if is_attr_or_ns {
+                crate::trace::note_event("following-from-attr-or-ns");
+            }
             // after the context node in document order, excluding descendants,
             // attribute nodes and namespace nodes.  An attribute/namespace
             // node has no descendants, so the content of its parent element
@@ -311,6 +319,9 @@ pub fn axis_nodes(t: &XTree, axis: Axis, n: usize) -> Vec<usize> {
                 .collect()
         }
         Axis::Preceding => {
+            if is_attr_or_ns {
+                crate::trace::note_event("preceding-from-attr-or-ns");
+            }
             // before the context node in document order, excluding ancestors,
             // attribute nodes and namespace nodes
             let mut anc = Vec::new();
@@ -337,36 +348,65 @@ fn principal_kind(axis: Axis) -> Kind {
     }
 }
 
-fn node_test(env: &Env, axis: Axis, test: &NodeTest, n: usize) -> Result<bool, EvalError> {
-    let node = &env.tree.nodes[n];
-    Ok(match test {
-        NodeTest::Node => true,
-        NodeTest::Text => node.kind == Kind::Text,
-        NodeTest::Comment => node.kind == Kind::Comment,
-        NodeTest::PI(None) => node.kind == Kind::PI,
-        NodeTest::PI(Some(target)) => node.kind == Kind::PI && node.local == *target,
-        NodeTest::AnyName => node.kind == principal_kind(axis),
-        NodeTest::NsAny(prefix) => {
-            let uri = env.resolve(prefix)?;
-            node.kind == principal_kind(axis)
-                && node.kind != Kind::Namespace
-                && node.uri.as_deref() == Some(uri)
-        }
-        NodeTest::Name(prefix, local) => {
-            let uri = match prefix {
-                Some(p) => Some(env.resolve(p)?),
-                None => None,
-            };
-            if node.kind != principal_kind(axis) {
-                false
-            } else if node.kind == Kind::Namespace {
-                // expanded-name of a namespace node: (null, prefix)
-                uri.is_none() && node.local == *local
-            } else {
-                node.local == *local && node.uri.as_deref() == uri
+/// A node test with its QName expanded against the expression context.
+enum ResolvedTest<'a> {
+    Node,
+    Text,
+    Comment,
+    PI(Option<&'a str>),
+    AnyName,
+    /// `prefix:*` -> namespace URI
+    NsAny(&'a str),
+    /// expanded name: (namespace URI or None, local part)
+    Name(Option<&'a str>, &'a str),
+}
+
+impl<'a> ResolvedTest<'a> {
+    fn new(env: &Env<'a>, test: &'a NodeTest) -> Result<ResolvedTest<'a>, EvalError> {
+        Ok(match test {
+            NodeTest::Node => ResolvedTest::Node,
+            NodeTest::Text => ResolvedTest::Text,
+            NodeTest::Comment => ResolvedTest::Comment,
+            NodeTest::PI(t) => ResolvedTest::PI(t.as_deref()),
+            NodeTest::AnyName => ResolvedTest::AnyName,
+            NodeTest::NsAny(p) => ResolvedTest::NsAny(env.resolve(p)?),
+            NodeTest::Name(p, l) => ResolvedTest::Name(
+                match p {
+                    Some(p) => Some(env.resolve(p)?),
+                    None => None,
+                },
+                l.as_str(),
+            ),
+        })
+    }
+
+    fn matches(&self, t: &XTree, axis: Axis, n: usize) -> bool {
+        let node = &t.nodes[n];
+        match self {
+            ResolvedTest::Node => true,
+            ResolvedTest::Text => node.kind == Kind::Text,
+            ResolvedTest::Comment => node.kind == Kind::Comment,
+            ResolvedTest::PI(None) => node.kind == Kind::PI,
+            ResolvedTest::PI(Some(target)) => node.kind == Kind::PI && node.local == *target,
+            ResolvedTest::AnyName => node.kind == principal_kind(axis),
+            ResolvedTest::NsAny(uri) => {
+                // the expanded-name of a namespace node has a null namespace URI
+                node.kind == principal_kind(axis)
+                    && node.kind != Kind::Namespace
+                    && node.uri.as_deref() == Some(*uri)
+            }
+            ResolvedTest::Name(uri, local) => {
+                if node.kind != principal_kind(axis) {
+                    false
+                } else if node.kind == Kind::Namespace {
+                    // expanded-name of a namespace node: (null, prefix)
+                    uri.is_none() && node.local == *local
+                } else {
+                    node.local == *local && node.uri.as_deref() == *uri
+                }
             }
         }
-    })
+    }
 }
 
 // ---------------------------------------------------------------------------
@@ -436,7 +476,9 @@ fn call(name: &str, args: &[Expr], env: &Env, c: Ctx) -> Result<Value, EvalError
         if vals.is_empty() {
             Ok(Some(c.node))
         } else {
-            Ok(nodeset_arg(0)?.first().copied())
+            let ns = nodeset_arg(0)?;
+            crate::trace::note_order_use(t, ns);
+            Ok(ns.first().copied())
         }
     };
     // optional string argument defaulting to the string-value of the context node
